@@ -265,6 +265,9 @@ func factsSes(f *facts) {
 		"configureExposedHeaders", "configureMaxAge", "applyHeaders"} {
 		f.skeletonOf(ty, "types", "cors", n)
 	}
+	for _, n := range []string{"Write", "Flush"} {
+		f.skeletonOf(ty, "types", "HttpContext", n)
+	}
 	f.skeletonOf(ty, "types", "", "CorsMiddleware")
 	f.skeletonOf(ty, "types", "", "MiddlewareWrapper")
 	ut := loadPkg("utils")
